@@ -64,18 +64,25 @@ DATA = {
 
 
 # ------------------------------------------------------------------------------------------- the boundary
-class FakeTimer:
-    """`threading.Timer` for the linktest timer: never fires (the linktest period is outside the property's alphabet)."""
+TIMERS: list = []  # every linktest timer the endpoint under test has created (reset per endpoint)
 
-    def __init__(self, *_a, **_k):
+
+class FakeTimer:
+    """`threading.Timer` for the linktest timer: pending until the harness fires it (input `lt`) or the code cancels it."""
+
+    def __init__(self, _interval, function, *_a, **_k):
+        self.function = function
+        self.state = "new"
         self.daemon = True
         self.name = ""
+        TIMERS.append(self)
 
     def start(self):
-        pass
+        self.state = "pending"
 
     def cancel(self):
-        pass
+        if self.state == "pending":
+            self.state = "cancelled"
 
 
 hsms_protocol_module.threading = types.SimpleNamespace(Timer=FakeTimer, Thread=threading.Thread)
@@ -199,6 +206,8 @@ class Endpoint:
 
     def __init__(self, active: bool):
         self.active = active
+        del TIMERS[:-50]  # keep the registry short; stray late timers of earlier endpoints are filtered by owner
+        self.timer_threads = set()
         mode = HsmsConnectMode.ACTIVE if active else HsmsConnectMode.PASSIVE
         self.settings = Settings(connect_mode=mode, t6=3600, t3=3600)
         self.p = HsmsProtocol(self.settings)
@@ -289,6 +298,30 @@ class Endpoint:
             self.wait_for(lambda: system not in self.p._response_queues)
             th.join(WAIT)
 
+    # ---- linktest timers
+    def stored_timer_pending(self) -> bool:
+        t = self.p._linktest_timer
+        return isinstance(t, FakeTimer) and t.state == "pending"
+
+    def my_timers(self):
+        # a requester of an EARLIER endpoint of this process may still re-arm its timer while it is being cleaned up: only this protocol's count
+        return [t for t in list(TIMERS) if getattr(t.function, "__self__", None) is self.p]
+
+    def orphan_timers(self) -> int:
+        return len([t for t in self.my_timers() if t.state == "pending" and t is not self.p._linktest_timer])
+
+    def pending_timer(self):
+        """the timer that fires: the stored one if it is pending, else a stray one"""
+        if self.stored_timer_pending():
+            return self.p._linktest_timer
+        return next((t for t in self.my_timers() if t.state == "pending"), None)
+
+    def kind_of(self, system, kinds):
+        k = kinds.get(system)
+        if (k in (None, "lnk")) and self.owner.get(system) in self.timer_threads:
+            return "ltm"
+        return k
+
     # ---- state
     def conn(self) -> str:
         return CONN.get(self.p.connection_state.current, "?")
@@ -352,6 +385,15 @@ class Endpoint:
                 th = threading.Thread(target=fn, daemon=True)
                 th.start()
                 self.wait_sent(th)
+        elif k == "lt":
+            t = self.pending_timer()
+            if t is not None:
+                t.state = "fired"
+                th = threading.Thread(target=t.function, daemon=True)  # what `threading.Timer` does when the interval is over
+                self.timer_threads.add(th)
+                th.start()
+                # `_on_linktest_timer`: Linktest.req written (or, without a connection, left in the send queue), then it waits for the answer
+                self.wait_for(lambda: self.sent_by.get(th, 0) >= 1 or not th.is_alive() or (not c.connected and p._send_queue.qsize() > 0))
         elif k == "t6":
             system = int(parts[1])
             q = p._response_queues.get(system)
@@ -426,9 +468,9 @@ def concretise(aop: str, ep: Endpoint, kinds: dict) -> str:
         if tok == "U":
             return UNSOL
         if tok in ("Ms", "Md", "Ml", "Ma"):
-            want = {"Ms": "sel", "Md": "des", "Ml": "lnk", "Ma": None}[tok]
+            want = {"Ms": ("sel",), "Md": ("des",), "Ml": ("lnk", "ltm"), "Ma": None}[tok]
             for system in reversed(ep.open_systems()):
-                if want is None or kinds.get(system) == want:
+                if want is None or ep.kind_of(system, kinds) in want:
                     return system
             return FALLBACK
         return int(tok)
@@ -455,13 +497,17 @@ def run_history(active: bool, aops: list[str]):
     ep = Endpoint(active)
     kinds = {}  # system -> sel|des|lnk, learnt from the request frames on the wire
     recs, cops = [], []
-    for aop in aops:
+    for idx, aop in enumerate(aops):
+        if aop == "lt" and not ep.c.connected and ep.pending_timer() is not None and idx != len(aops) - 1:
+            # a timer firing without a connection leaves its thread blocked in `send_message`; like a queued block dispatched without a
+            # connection this is followed only as the LAST input of a history (the send queue across a reconnect is C06/C09's subject)
+            continue
         cop = concretise(aop, ep, kinds)
         if cop.startswith(("dat.", "datq.")):
             pp = cop.split(".")
             d = decodable(ep, int(pp[1]), int(pp[2]), pp[3] == "1", int(pp[4]), bytes.fromhex(pp[6]) if pp[6] != "-" else b"")
             cop = ".".join(pp[:5] + ["1" if d else "0"] + pp[6:])
-        open_before = {s: kinds.get(s) for s in ep.open_systems()}
+        open_before = {s: ep.kind_of(s, kinds) for s in ep.open_systems()}
         closing_before = bool(ep.c.disconnecting)
         rec = ep.step(cop)
         rec["open_before"] = open_before
@@ -474,8 +520,9 @@ def run_history(active: bool, aops: list[str]):
         cops.append(cop)
         if rec["stall"]:
             break
-    opn = ";".join(f"{s}/{kinds.get(s, '?')}" for s in ep.open_systems()) or "-"
-    final = f"ok {ep.conn()} dis={1 if ep.c.disconnecting else 0} ctr={ep.p._system_counter} open={opn}"
+    opn = ";".join(f"{s}/{ep.kind_of(s, kinds) or '?'}" for s in ep.open_systems()) or "-"
+    final = (f"ok {ep.conn()} dis={1 if ep.c.disconnecting else 0} ctr={ep.p._system_counter} open={opn} "
+             f"lt={1 if ep.stored_timer_pending() else 0}/{ep.orphan_timers()}")
     ep.cleanup()
     return cops, recs, final
 
@@ -661,7 +708,7 @@ CORE = ["con", "pcl", "dib", "die", "rx.selreq.U.0", "rx.desreq.U.0", "rx.lnkreq
         "rx.sepreq.U.0", "rx.rejreq.U.0", "dat.cw.U", "dat.cn.U"]
 FULL = CORE + ["rx.selrsp.Ms.0", "rx.selrsp.Ms.1", "rx.selrsp.Ml.0", "rx.desrsp.Md.0", "rx.desrsp.Md.1", "rx.lnkrsp.Ml.0", "rx.lnkrsp.U.0",
                "rx.rejreq.Ma.0", "rx.sepreq.Ma.0", "dat.uw.U", "dat.un.U", "dat.mw.U", "dat.mn.U", "dat.cw.Ma", "dat.cn.Ma",
-               "api.sel", "api.des", "api.lnk", "t6.Ma"]
+               "api.sel", "api.des", "api.lnk", "t6.Ma", "lt"]
 PREFIXES = [["con"], ["con", "rx.selreq.U.0"], ["con", "dib"], ["con", "rx.selreq.U.0", "dib"], ["con", "rx.selreq.U.0", "api.des"],
             ["con", "api.lnk"]]
 
@@ -752,7 +799,8 @@ class RetryDriver(hlib.Driver):
 
 
 def probe_defects():
-    """replay the two recorded findings' witnesses: which model variant describes this tree"""
+    """replay the witnesses of the two findings repaired by 812b685 / bfe991b: which model variant describes this tree
+    (Defects.none unless one of the fixes has been reverted)"""
     _, recs, _ = run_history(False, ["con", "rx.selrsp.U.0"])
     d1 = recs[-1]["post"] == "SEL"
     _, recs, _ = run_history(False, ["con", "rx.selreq.U.0", "rx.sepreq.U.0"])
@@ -777,11 +825,15 @@ def main():
 
     d1, d2 = probe_defects()
     defects = f"{1 if d1 else 0}{1 if d2 else 0}"
-    res.notes.append(f"model variant for this tree (witness replay): selectRspUnchecked={d1} separateIgnored={d2}")
+    res.notes.append("witness replay of the two repaired findings (F-4 fix 812b685, F-5 fix bfe991b): "
+                     + ("this tree shows the repaired behaviour, model variant Defects.none" if not (d1 or d2) else
+                        f"REGRESSION - this tree shows the pre-fix behaviour again (selectRspUnchecked={d1}, separateIgnored={d2}); the model is driven "
+                        "as Defects.preFix so that the correspondence still localises other differences, the oracle reports the E37 deviation as "
+                        "class c05-select-rsp-unchecked / c05-separate-ignored (no longer listed in known_findings.txt: a NEW violation)"))
     res.rule = ("histories over {con, pcl (peer close), dib/die (local disable begin/end), rx Select/Deselect/Linktest.req, Select/Deselect.rsp "
                 "(solicited status 0 / solicited status 1 / unsolicited / matching another kind of request), Separate.req, Reject.req, Linktest.rsp, "
                 "data (catalogued / uncatalogued / malformed body) x (W / no W) x (unsolicited / matching system bytes), api select/deselect/linktest, "
-                "T6 expiry}, active and passive; exhaustive over the 13-letter core alphabet from the initial state and over the full alphabet after "
+                "T6 expiry, linktest timer firing}, active and passive; exhaustive over the 13-letter core alphabet from the initial state and over the full alphabet after "
                 "six state-establishing prefixes; seeded random histories of 4-14 inputs.  distinct = distinct (mode, concretised history); "
                 "non-trivial = the history leaves NOT CONNECTED")
 
@@ -820,6 +872,8 @@ def main():
                       (False, ["con", "rx.selreq.U.0", "dat.uw.U"]), (False, ["con", "rx.selreq.U.0", "rx.selreq.U.0"]),
                       (True, ["con", "rx.selreq.U.0", "rx.selrsp.Ms.0", "rx.desreq.U.0", "rx.selrsp.Ms.0"]),
                       (False, ["con", "rx.selreq.U.0", "dat.cw.U", "pcl", "datq.cw.U"]),
+                      (False, ["con", "lt", "pcl", "t6.Ma", "con", "lt", "rx.lnkrsp.Ml.0", "lt"]), (True, ["con", "lt", "rx.lnkrsp.Ml.0", "lt", "pcl", "lt"]),
+                      (False, ["con", "lt", "pcl", "t6.Ma", "lt"]),
                       (True, ["con", "rx.selreq.U.0", "dat.cw.Ma", "dat.cn.Ma"]), (False, ["con", "rx.selreq.U.0", "api.lnk", "dat.mw.Ma", "dat.mn.Ma"])]
 
     t0 = time.time()
